@@ -2,7 +2,7 @@
 """Self-test of the shared font I/O groundwork (lib/ufoio.py, harness/src/fontio*.rs).
 
     python3 lib/fontio_selftest.py [--seed N] [--count K] [--gen class,...|all] [--style class,...|all]
-                                   [--keep DIR] [--no-testdata] [-v]
+                                   [--keep DIR] [--no-testdata] [--font FILE.json] [-v]
 
  A  norad direction:  gen_font -> build_font -> Font::save -> n.ufo ; compared:
       A1 dump(build(font))           = font        (fontio.rs build/dump are inverse)
@@ -12,7 +12,13 @@
  B  writer direction: write_ufo(font, random style) -> w.ufo ; compared:
       B1 read_ufo(w.ufo)             = font        (ufoio.py write/read are inverse)
       B2 dump(Font::load(w.ufo))     = font        (norad reads what the independent writer wrote)
- C  every UFO 3 under /repo/testdata: read_ufo = dump(Font::load)
+ C  every UFO 3 under /repo/testdata: read_ufo = dump(Font::load);
+    C2 dump(Font::load(write_ufo(read_ufo(fixture)))) = read_ufo(fixture)
+
+Generator classes (--gen): glyph_lib_linebreaks note_blanks f2_numbers f13_meta cr_in_note empty_contours
+subnormal_advance attr_ws cr_in_plist.  Writer classes (--style): see ufoio.KNOWN_CLASSES.
+Minimal witnesses of the differences these classes produce: corpus/fontio/*.json (replay with --font).
+FONTIO_HARNESS=<binary> selects a harness built against another checkout of norad.
 
 Exit status 0 iff there is no difference.  With --gen / --style the known-finding classes are switched
 on and the differences are listed per class instead (exit status still reflects them).
@@ -31,7 +37,7 @@ sys.path.insert(0, os.path.dirname(os.path.abspath(__file__)))
 import ufoio  # noqa: E402
 
 ROOT = os.path.dirname(os.path.dirname(os.path.abspath(__file__)))
-HARNESS = os.path.join(ROOT, "harness", "target", "release", "norad-verif-harness")
+HARNESS = os.environ.get("FONTIO_HARNESS") or os.path.join(ROOT, "harness", "target", "release", "norad-verif-harness")
 REPO = os.environ.get("VERIF_REPO", "/repo")
 
 
@@ -54,7 +60,7 @@ def classify(check, path, x, y):
     """Differences that are documented behaviour rather than disagreements (counted, not failed)."""
     # norad drops entries of public.objectLibs whose identifier matches no object (DESIGN C04 note:
     # an observation, not a violation); the independent reader keeps them in the lib.
-    if check in ("C", "A4", "B2") and path.endswith("/public.objectLibs") and y == "<absent>":
+    if check in ("C", "C2", "A4", "B2") and path.endswith("/public.objectLibs") and "<absent>" in (x, y):
         return "orphan-object-libs-dropped-by-norad"
     return None
 
@@ -129,6 +135,9 @@ def run(args):
         cmd = [HARNESS, "c05", "--out", a_dir, "--seed", str(args.seed), "--count", str(args.count)]
         if args.gen:
             cmd += ["--gen", args.gen]
+        if args.font:
+            cmd += ["--font", args.font]
+            args.count = 1
         rc, out = sh(cmd)
         if rc != 0:
             print("harness c05 failed:\n" + out[-3000:])
@@ -224,6 +233,22 @@ def run(args):
                     rep.fail("C", rel, "norad rejects, read_ufo reads: %s" % n["__load_error__"][:300])
                     continue
                 rep.compare("C", rel, r, n, tol=0.0, ignore_creator=False)
+                # C2: the fixture re-rendered by the independent writer loads to the same values
+                if hasattr(ufoio, "write_ufo"):
+                    rng = random.Random(args.seed)
+                    w = os.path.join(work, "c2.ufo")
+                    shutil.rmtree(w, ignore_errors=True)
+                    try:
+                        ufoio.write_ufo(r, w, rng, ufoio.random_style(rng, **{c: True for c in style_classes}))
+                    except Exception as e:
+                        rep.fail("C2", rel, "write_ufo raised %r" % (e,))
+                        continue
+                    rc, out = sh([HARNESS, "c05", "--dump", w, "--to", dump])
+                    n2 = load(dump) if rc == 0 else {"__load_error__": out}
+                    if "__load_error__" in n2:
+                        rep.fail("C2", rel, "norad rejects the re-rendered fixture: %s" % n2["__load_error__"][:300])
+                    else:
+                        rep.compare("C2", rel, n2, r, tol=0.0, ignore_creator=False)
         bad = rep.summary()
         print("RESULT: %s (%d cases with differences)" % ("clean" if bad == 0 else "DIFFERENCES", bad))
         return 0 if bad == 0 else 1
@@ -239,6 +264,7 @@ def main():
     ap.add_argument("--gen", default="")
     ap.add_argument("--style", default="")
     ap.add_argument("--keep", default="")
+    ap.add_argument("--font", default="", help="run A and B for the single abstract font in this JSON file")
     ap.add_argument("--no-testdata", action="store_true")
     ap.add_argument("-v", "--verbose", action="store_true")
     sys.exit(run(ap.parse_args()))
